@@ -1312,3 +1312,46 @@ benign("c19-reader-tuple-reordered", ["C19"], [(F, '''                    comman
                     commands.SizeCommand,''', '''                    commands.AddressCommand,
                     commands.HeaderCommand,
                     commands.SizeCommand,''')])
+
+# --------------------------------------------------------------------------- P12-P15 (transitions, attachment)
+seeded("p12-trailing-comma-in-list", ["C01"], "P12", [(P, '''        if ttype == "comma":
+            self.__set_expected("string")
+            return True
+        if ttype == "right_bracket":''', '''        if ttype == "comma":
+            self.__set_expected("string", "right_bracket")
+            return True
+        if ttype == "right_bracket":''')], '["a",] accepted; suite has no trailing-comma script... (misplaced comma test uses leading comma)')
+seeded("p12-empty-testlist", ["C01"], "P12", [(P, '''            self.__push_expected_bracket("right_parenthesis", b")")
+            self.__set_expected("identifier")''', '''            self.__push_expected_bracket("right_parenthesis", b")")
+            self.__set_expected("identifier", "right_parenthesis")''')], "anyof () accepted")
+seeded("p12-empty-stringlist", ["C01"], "P12", [(P, '''            self.__curstringlist = []
+            self.__set_expected("string")''', '''            self.__curstringlist = []''')])
+seeded("p12-semicolon-not-demanded", ["C01"], "P12", [(P, '''            if testsemicolon:
+                self.__set_expected("semicolon")
+            return True''', '''            return True''')])
+seeded("p12-not-accepts-parenthesis", ["C01"], "P12", [(C, '''    args_definition = [{"name": "test", "type": ["test"], "required": True}]
+
+    def get_expected_first(self):
+        return ["identifier"]''', '''    args_definition = [{"name": "test", "type": ["test"], "required": True}]
+
+    def get_expected_first(self):
+        return ["identifier", "left_parenthesis"]''')])
+seeded("p12-expected-first-not-installed", ["C01"], "P12", [(P, "            self.__expected = test.get_expected_first()\n", "")], "anyof true { } style accepted")
+seeded("p13-nested-command-not-attached", ["C01", "C03"], "P13", [(P, '''            if self.__curcommand is not None:
+                if not self.__curcommand.addchild(command):''', '''            if self.__curcommand is not None and command.get_type() != "action":
+                if not self.__curcommand.addchild(command):''')], "actions inside blocks accepted but absent from the tree; boolean tests unaffected")
+seeded("p13-test-not-given-to-parent", ["C01", "C03"], "P13", [(P, '''            if not self.__curcommand.check_next_arg("test", test):
+                return False
+            self.__expected = test.get_expected_first()''', '''            if self.__curcommand.variable_args_nb and not self.__curcommand.check_next_arg("test", test):
+                return False
+            self.__expected = test.get_expected_first()''')])
+seeded("p14-first-item-only", ["C01", "C03"], "P14", [(P, '''            self.__curstringlist += [tvalue.decode("utf-8")]''', '''            if not self.__curstringlist:
+                self.__curstringlist += [tvalue.decode("utf-8")]''')], "lists keep only their first item; compilation_ok tests unaffected")
+seeded("p14-list-not-fresh", ["C01", "C03"], "P14", [(P, '''            self.__cstate = self.__stringlist
+            self.__curstringlist = []''', '''            self.__cstate = self.__stringlist
+            if self.__curstringlist is None:
+                self.__curstringlist = []''')], "second list of a command also contains the first one's items")
+seeded("p15-number-as-string", ["C01", "C03"], "P15", [(P, '''        if ttype in ["number", "tag"]:
+            return self.__curcommand.check_next_arg(ttype, tvalue.decode("ascii"))''', '''        if ttype in ["number", "tag"]:
+            return self.__curcommand.check_next_arg("tag" if ttype == "tag" else "string", tvalue.decode("ascii"))''')])
+seeded("p15-value-lowercased", ["C01", "C03"], "P15", [(P, '''            return self.__curcommand.check_next_arg("string", tvalue.decode("utf-8"))''', '''            return self.__curcommand.check_next_arg("string", tvalue.decode("utf-8").strip())''')])
